@@ -81,8 +81,11 @@ def run_history(ctx: Ctx, rng, kind: str, hidx: int) -> None:
                 any(impl in bind.rtid and deleted_by.get(m) != reader_idx for m, impl in bind.dead_tid.items())
 
         def fail(op, why, reader_idx, **more):
+            tgt = op[1] if len(op) > 1 and isinstance(op[1], str) else None
             ctx.violation({"backend_family": fam, "via_grpc": kind.startswith("grpc:"), "op": op[0], "reader": names[min(reader_idx, 2)] if reader_idx < 3 else "late_joiner",
-                           "foreign_delete_then_sqlite_id_reuse": bool(fam == "sqlite" and reader_idx != 2 and foreign_reuse(reader_idx)), **more},
+                           "foreign_delete_then_sqlite_id_reuse": bool(fam == "sqlite" and reader_idx != 2 and foreign_reuse(reader_idx)),
+                           "reader_is_a_caching_client": reader_idx != 2,
+                           "target_deleted_by_another_client": bool(tgt is not None and tgt in deleted_by and deleted_by[tgt] != reader_idx), **more},
                           why, case, {"op": op, "last_ops": ops_log[-14:]})
 
         for step in range(n_steps):
@@ -116,7 +119,8 @@ def run_history(ctx: Ctx, rng, kind: str, hidx: int) -> None:
                 return
             why = X.compare(op, exp, got, bind, model)
             if why is not None:
-                fail(op, why, widx, kind="outcome_differs", field=_field_of(why))
+                fail(op, why, widx, kind="outcome_differs", field=_field_of(why),
+                     expected_keyerror_but_call_succeeded=bool(exp[0] == "exc" and exp[1] == "KeyError" and got[0] == "ok"))
                 return
             if op[0] == "delete_study" and exp[0] == "ok":
                 gen.note_delete(before, op[1])
